@@ -136,10 +136,10 @@ theorem applySameLoop_dom : ∀ (n i : Nat) (vr : VR) (cs : List Constraint) (su
 
 /-! ### the constraint loop -/
 
-/-- every chip description lists the machine's `n` resources and describes a working chip -/
+/-- every chip description (also one recorded for a dead chip) lists the machine's `n` resources -/
 structure MDom (m : Machine) (n : Nat) : Prop where
   res : m.res.length = n
-  exc : ∀ e ∈ m.exc, e.2.length = n ∧ m.ok e.1 = true
+  exc : ∀ e ∈ m.exc, e.2.length = n
 
 theorem mem_aset {α β : Type} [DecidableEq α] (l : List (α × β)) (a : α) (b : β) :
     ∀ e ∈ aset l a b, e = (a, b) ∨ e ∈ l := by
@@ -165,7 +165,7 @@ theorem cap_length {m : Machine} {n : Nat} (D : MDom m n) (c : Chip) : (cap m c)
   unfold cap
   cases hx : aget m.exc c with
   | none => exact D.res
-  | some r => exact (D.exc _ (aget_some_mem hx)).1
+  | some r => exact D.exc _ (aget_some_mem hx)
 
 theorem MDom.set {m m' : Machine} {n : Nat} {c : Chip} {r : Res} (D : MDom m n) (hr : r.length = n)
     (h : m.set c r = some m') : MDom m' n ∧ ∀ c', m'.ok c' = m.ok c' := by
@@ -176,8 +176,8 @@ theorem MDom.set {m m' : Machine} {n : Nat} {c : Chip} {r : Res} (D : MDom m n) 
     have hokeq : ∀ c', ({ m with exc := aset m.exc c r } : Machine).ok c' = m.ok c' := fun _ => rfl
     refine ⟨⟨D.res, fun e he => ?_⟩, hokeq⟩
     rcases mem_aset _ _ _ e he with rfl | he
-    · exact ⟨hr, by rw [hokeq]; exact hok⟩
-    · rw [hokeq]; exact D.exc e he
+    · exact hr
+    · exact D.exc e he
   · simp at h
 
 theorem decr_ok : ∀ (a : Res) (r : Nat) (x : Int), r < a.length → ∃ a', decr a r x = some a' := by
@@ -193,7 +193,7 @@ theorem decr_ok : ∀ (a : Res) (r : Nat) (x : Int), r < a.length → ∃ a', de
       exact ⟨y :: b, by simp [decr, hb]⟩
 
 theorem reserveExc_doc (m : Machine) (r : Nat) (amt : Int) :
-    ∀ (rest done : List (Chip × Res)) (e : Err), (∀ x ∈ rest, r < x.2.length ∧ m.ok x.1 = true) →
+    ∀ (rest done : List (Chip × Res)) (e : Err), (∀ x ∈ rest, r < x.2.length) →
       reserveExc m r amt done rest = .error e → e = .insufficient := by
   intro rest
   induction rest with
@@ -201,16 +201,14 @@ theorem reserveExc_doc (m : Machine) (r : Nat) (amt : Int) :
   | cons hd t ih =>
     obtain ⟨c, res⟩ := hd
     intro done e hx h
-    obtain ⟨h1, h2⟩ := hx (c, res) (by simp)
+    have h1 := hx (c, res) (by simp)
     obtain ⟨res', hres'⟩ := decr_ok res r amt h1
     simp only [reserveExc, hres'] at h
-    simp only [h2] at h
-    simp only [Bool.not_true, Bool.false_eq_true, if_false] at h
     split at h
     · injection h with h; exact h.symm
     · exact ih _ _ (fun x hx' => hx x (List.mem_cons_of_mem _ hx')) h
 
-theorem excRel_dom {r : Nat} {amt : Int} {l l' : List (Chip × Res)} (f : ExcRel r amt l l') :
+theorem excRel_dom {m : Machine} {r : Nat} {amt : Int} {l l' : List (Chip × Res)} (f : ExcRel m r amt l l') :
     ∀ b ∈ l', ∃ a ∈ l, b.1 = a.1 ∧ b.2.length = a.2.length := by
   induction f with
   | nil => intro b hb; simp at hb
@@ -237,8 +235,7 @@ theorem applyReserve_doc {m : Machine} {n : Nat} (D : MDom m n) {r : Nat} {amt :
       | error e' =>
         refine ⟨fun e h => ?_, fun m' h => by simp at h⟩
         injection h with h; subst h
-        exact reserveExc_doc m r amt _ _ _ (fun x hx' => by
-          obtain ⟨h1, h2⟩ := D.exc x hx'; exact ⟨by rw [h1]; exact hr, h2⟩) hx
+        exact reserveExc_doc m r amt _ _ _ (fun x hx' => by rw [D.exc x hx']; exact hr) hx
       | ok exc' =>
         refine ⟨fun e h => by simp at h, fun m' h => ?_⟩
         injection h with h; subst h
@@ -249,8 +246,7 @@ theorem applyReserve_doc {m : Machine} {n : Nat} (D : MDom m n) {r : Nat} {amt :
         · show res'.length = n
           rw [(decr_some hres').1]; exact D.res
         · obtain ⟨a, ha, h1, h2⟩ := excRel_dom f b hb
-          obtain ⟨d1, d2⟩ := D.exc a ha
-          rw [hokeq, h1, h2]; exact ⟨d1, d2⟩
+          rw [h2]; exact D.exc a ha
   | some c =>
     have hok := hat c rfl
     have hget : m.get c = some (cap m c) := by simp [Machine.get, hok, cap]
